@@ -14,6 +14,7 @@ EXPLANATION = (
     "scan covers every child (one arm per tuple position polling that field; Indexer of the container length; Indexer::iter is a "
     "rotation of 0..max); (OWN) the children are plain by-value fields of the race future, so the losers are dropped by drop glue "
     "together with it and nothing else holds them; (EXT) FutureExt::race builds (self, other).")
+EXPLANATION += (' (CTOR) the entry point stores every operand, converted by into_future only, as the child of its own position.')
 ASSUMPTIONS = [
     "which of several simultaneously ready children is seen first is the scan order (unspecified by the property)",
     "drop glue drops every by-value field exactly once (language guarantee)",
